@@ -297,7 +297,7 @@ def _tlc_trace(ck, trace_path, deviations, props, tag):
     return verdict, res
 
 
-def validate_traces(ck, outcomes, deviations, tag, props=None):
+def validate_traces(ck, outcomes, deviations, tag, props=None, max_rejections=6):
     """Validate the normalised traces of all outcomes. Returns (n_accepted, rejections, tlc_results) where a
     rejection is {id, index, event, rule, events_before}. The rule is found by switching rule tags off."""
     props = list(props or ALL_RULES)
@@ -306,11 +306,12 @@ def validate_traces(ck, outcomes, deviations, tag, props=None):
     results = []
     accepted = 0
     todo = per
-    rounds = 0
+    classified = {}
     while todo:
-        rounds += 1
-        if rounds > 40:
-            raise vlib.ToolError("too many rejected traces; giving up")
+        if len(rejections) >= max_rejections:
+            # enough to report; the rest stays unvalidated (said so in the evidence notes)
+            ck.notes.append(f"trace validation stopped after {len(rejections)} rejections; {len(todo)} traces not validated")
+            break
         path = os.path.join(ck.dir, f"trace_{tag}.ndjson")
         rows = []
         owner = []
@@ -331,13 +332,19 @@ def validate_traces(ck, outcomes, deviations, tag, props=None):
         accepted += pos
         # which rule rejected it: the single tag whose removal lets this scenario pass further
         rule = "unexplained"
-        single = os.path.join(ck.dir, f"trace_{tag}_one.ndjson")
-        vlib.write_ndjson(single, evs)
-        for tagname in props:
-            (v2, i2), _ = _tlc_trace(ck, single, deviations, [p for p in props if p != tagname], tag + "_r")
-            if v2 == "accepted" or (i2 is not None and i2 - 1 > local):
-                rule = tagname
-                break
+        klass = (evs[local]["ev"], evs[local].get("inst"), evs[local].get("t"), evs[local].get("disp"),
+                 evs[local].get("why"))
+        if klass in classified:
+            rule = classified[klass]
+        else:
+            single = os.path.join(ck.dir, f"trace_{tag}_one.ndjson")
+            vlib.write_ndjson(single, evs)
+            for tagname in props:
+                (v2, i2), _ = _tlc_trace(ck, single, deviations, [p for p in props if p != tagname], tag + "_r")
+                if v2 == "accepted" or (i2 is not None and i2 - 1 > local):
+                    rule = tagname
+                    break
+            classified[klass] = rule
         rejections.append({"id": sid, "index": local, "event": evs[local], "rule": rule,
                            "before": evs[max(0, local - 6):local]})
         todo = todo[pos + 1:]
